@@ -155,7 +155,7 @@ impl<'r> V11<'r> {
                     match RoDir::<TC>::new(manager(&dbw, CacheCfg::None), ctx.vrf.clone(), AzksParallelismConfig::disabled()).await {
                         Err(e) => self.rep.violation(format!("{}/reader_cannot_open", TC::NAME), json!({"history": hist(), "error": format!("{e:?}")})),
                         Ok(ro) => {
-                            for b in reader_suite::<TC, _>(&ro, &ctx.model, &ctx.published, &absent, !self.thorough).await {
+                            for b in reader_suite::<TC, _>(&ro, &ctx.model, &ctx.published, &absent, !self.thorough || ctx.history.len() >= 2).await {
                                 self.rep.violation(
                                     format!("{}/partial_commit/readonly/{}", TC::NAME, b.kind),
                                     json!({"history": hist(), "written": format!("{mask:#b} of {n} records"), "detail": b.detail,
@@ -165,7 +165,9 @@ impl<'r> V11<'r> {
                         }
                     }
                     // a full Directory with the default cache (thorough, or for the extreme masks)
-                    if self.thorough || mask == 0 || mask == (1u64 << n) - 1 {
+                    // (thorough: for the crash states with at most two records written or missing; quick: the extremes)
+                    let pc = (mask as u64).count_ones() as usize;
+                    if (self.thorough && (pc <= 2 || pc + 2 >= n)) || mask == 0 || mask == (1u64 << n) - 1 {
                         let d = new_dir::<TC>(&dbw, &ctx.vrf, CacheCfg::Default, AzksParallelismConfig::disabled()).await;
                         for b in reader_suite::<TC, _>(&d, &ctx.model, &ctx.published, &absent, true).await {
                             self.rep.violation(
@@ -178,7 +180,8 @@ impl<'r> V11<'r> {
                     // again. No property promises that this succeeds (after an arbitrary partial write akd refuses
                     // with an error, which is fine); but if it reports success it must have written the epoch record
                     // of the model's next epoch, and then "the new epoch is served completely" applies
-                    {
+                    // (thorough tier, prefixes of two epochs: only for crash states with at most two records written or missing)
+                    if !self.thorough || ctx.history.len() < 2 || pc <= 2 || pc + 2 >= n {
                         let dbr = dbw.fork().await;
                         let wd = new_dir::<TC>(&dbr, &ctx.vrf, CacheCfg::None, AzksParallelismConfig::disabled()).await;
                         let mut pub2 = ctx.published.clone();
@@ -235,9 +238,8 @@ fn run_alpha<TC: ModelCfg>(args: &Args, v: &V11, depth: usize, alphabet: Vec<Bat
         let mut next = vec![];
         for p in &frontier {
             for (i, b) in alphabet.iter().enumerate() {
-                // prefix histories: quick — value x only; thorough — the FIRST batch uses value x only (shape
-                // classes), later batches range over x and y
-                if b.is_empty() || ((!v.thorough || p.is_empty()) && b.iter().any(|(_, val)| val == b"y")) || (pairs_only && b.len() != 2) {
+                // prefix histories use value x only (shape classes); the crashing batch ranges over x and y
+                if b.is_empty() || b.iter().any(|(_, val)| val == b"y") || (pairs_only && b.len() != 2) {
                     continue;
                 }
                 let mut q = p.clone();
@@ -251,6 +253,10 @@ fn run_alpha<TC: ModelCfg>(args: &Args, v: &V11, depth: usize, alphabet: Vec<Bat
     let mut items: Vec<(Vec<usize>, usize)> = vec![];
     for p in &prefixes {
         for i in 0..alphabet.len() {
+            // tree-shape alphabets: crashing batches of at most two labels (larger commits only repeat the shapes)
+            if pairs_only && alphabet[i].len() > 2 {
+                continue;
+            }
             items.push((p.clone(), i));
         }
     }
@@ -278,11 +284,11 @@ fn run_alpha<TC: ModelCfg>(args: &Args, v: &V11, depth: usize, alphabet: Vec<Bat
 
 pub fn run(args: &Args) -> i32 {
     let rep = Report::new("C11", &args.tier, "fault_enumeration");
-    let (depth, full_max) = if args.quick() { (1, 7) } else { (2, 9) };
+    let (depth, full_max) = if args.quick() { (1, 7) } else { (2, 8) };
     let v = V11 { rep: &rep, full_subsets_max: full_max, thorough: !args.quick() };
     run_cfg::<W>(args, &v, depth);
     run_cfg::<E>(args, &v, depth);
-    rep.extra("plan", json!(format!("prefix histories of depth <= {depth} over the 27-batch alphabet (quick: prefixes restricted to value x) and depth-1 prefixes over the tree-shape alphabets, then every next batch that creates an epoch; all subsets of the commit body when it has <= {full_max} records, else prefixes of 3 orders + all subsets of size <=2 / >=n-2")));
+    rep.extra("plan", json!(format!("prefix histories of depth <= {depth} over the 27-batch alphabet (prefix batches restricted to value x: shape classes; the crashing batch ranges over all 27) and depth-1 prefixes over the tree-shape alphabets, then every next batch that creates an epoch; all subsets of the commit body when it has <= {full_max} records, else prefixes of 3 orders + all subsets of size <=2 / >=n-2")));
     rep.finish(
         "one evaluation = one crash state (pre-commit snapshot + a subset W of the commit's non-epoch records) opened by a fresh read-only instance (and a cached Directory) whose epoch hash, lookups, histories (Complete, MostRecent(1), MostRecent(2)) and audits must verify to DirModel at the previous epoch, with labels of the unfinished epoch invisible; after the epoch record lands the new epoch must be served completely. distinct = distinct (configuration, prefix history, crashing batch)",
         &["record-level atomicity of storage writes (the property's premise)", "blake3 collision resistance", "hard-coded test VRF key"],
